@@ -36,7 +36,7 @@ var catalog = []CatEntry{
 	{"DECR", "string", false, []string{"{ks}"}},
 	{"INCRBY", "string", false, []string{"{ks} 5", "{ks} -3", "{ks} abc", "{ks} 1.5"}},
 	{"DECRBY", "string", false, []string{"{ks} 5", "{ks} abc"}},
-	{"INCRBYFLOAT", "string", false, []string{"{ks} 1.5", "{ks} -0.5", "{ks} abc"}},
+	{"INCRBYFLOAT", "string", false, []string{"{ks} 1.5", "{ks} -0.5", "{ks} 2", "{ks} abc"}},
 	{"RENAME", "any", false, []string{"{k} {k2}", "{k} {k}", "{k} newkey"}},
 	{"FLUSHDB", "any", false, []string{""}},
 	{"FLUSHALL", "any", false, []string{""}},
@@ -85,7 +85,7 @@ var catalog = []CatEntry{
 	{"SADD", "set", false, []string{"{kt} {m}", "{kt} {m} {m}"}},
 	{"SCARD", "set", true, []string{"{kt}"}},
 	{"SDIFF", "set", true, []string{"{kt}", "{kt} {kt2}", "{kt} {kt2} {kt}", "{kt} {kt2} {kt3}"}},
-	{"SDIFFSTORE", "set", false, []string{"{dst} {kt}", "{dst} {kt} {kt2}", "{kt} {kt} {kt2}"}},
+	{"SDIFFSTORE", "set", false, []string{"{dst} {kt}", "{dst} {kt} {kt2}", "{kt} {kt} {kt2}", "{dst} {kt} {kt2} {kt3}", "{dst} {kt} {kt2} {kt2}"}},
 	{"SINTER", "set", true, []string{"{kt}", "{kt} {kt2}", "{kt} {kt2} {kt}", "{kt} {kt2} {kt3}"}},
 	{"SINTERCARD", "set", true, []string{"{kt}", "{kt} {kt2}", "{kt} {kt2} {kt3}", "{kt} {kt2} {kt3} LIMIT 1", "{kt} {kt2} LIMIT {c}", "{kt} {kt2} LIMIT abc"}},
 	{"SINTERSTORE", "set", false, []string{"{dst} {kt}", "{dst} {kt} {kt2}", "{dst} {kt} {kt2} {kt3}", "{kt} {kt} {kt2}"}},
